@@ -45,3 +45,58 @@ VH_ENSURES = [
     ("C02.open", "implies(result != -1, shr_domains_stack[stacks_top[0], result, MIN] < shr_domains_stack[stacks_top[0], result, MAX] and exists(k, 0, K, decision_domains[k] == result))"),
     ("C02.found", "implies(result == -1, forall(k, 0, K, shr_domains_stack[stacks_top[0], decision_domains[k], MIN] >= shr_domains_stack[stacks_top[0], decision_domains[k], MAX]))"),
 ]
+
+# ------------------------------------------------------------------ engine state (DESIGN 3.3)
+ENGINE_T = {
+    "statistics": "i64[13]", "algorithms": "u8[P]", "var_bounds": "u16[PB,2]", "param_bounds": "u16[PB,2]",
+    "dom_indices_arr": "u16[V]", "dom_offsets_arr": "i32[V]", "props_dom_indices": "u16[NV]", "props_dom_offsets": "i32[NV,1]",
+    "props_parameters": "i32[NP]", "triggers": "u8[D,P]", "shr_domains_stack": "i32[H,D,2]", "not_entailed_propagators_stack": "bool[H,P]",
+    "dom_update_stack": "u16[H,2]", "stacks_top": "u8[1]", "triggered_propagators": "bool[P]", "compute_domains_addrs": "opaque",
+    "decision_domains": "u16[K]",
+}
+WF_STATIC = [
+    ("wf.bounds", "PB >= P and PB >= 1"),
+    ("wf.var_bounds", "forall(p, 0, P, var_bounds[p, RG_START] <= var_bounds[p, RG_END] and var_bounds[p, RG_END] <= NV)"),
+    ("wf.param_bounds", "forall(p, 0, P, param_bounds[p, RG_START] <= param_bounds[p, RG_END] and param_bounds[p, RG_END] <= NP)"),
+    ("wf.dom_indices", "forall(k, 0, NV, props_dom_indices[k] < D)"),
+    ("wf.var_indices", "forall(v, 0, V, dom_indices_arr[v] < D)"),
+    ("wf.triggers", "forall(d, 0, D, forall(p, 0, P, triggers[d, p] < 8))"),
+    ("wf.decision", "forall(k, 0, K, decision_domains[k] < D)"),
+]
+WF_DYN = [
+    ("wf.height", "H >= 1 and H <= 256 and D <= 65535"),
+    ("wf.top", "stacks_top[0] < H"),
+    ("wf.nonempty", "forall(d, 0, D, shr_domains_stack[stacks_top[0], d, MIN] <= shr_domains_stack[stacks_top[0], d, MAX])"),
+    ("wf.records", "forall(l, 0, H, dom_update_stack[l, DOM_UPDATE_IDX] < D and dom_update_stack[l, DOM_UPDATE_EVENTS] < 8)"),
+]
+TOP = "stacks_top[0]"
+SS, SS0 = "shr_domains_stack", "old(shr_domains_stack)"
+NEs, NE0 = "not_entailed_propagators_stack", "old(not_entailed_propagators_stack)"
+ST_ = "statistics"
+
+
+def stat(i):
+    return f"statistics[{i}]"
+
+
+def dstat(i):
+    return f"(statistics[{i}] - old(statistics)[{i}])"
+
+
+CA_FRAME = [
+    ("C08.top", "stacks_top[0] == old(stacks_top)[0]"),
+    ("C08.levels", f"forall(l, 0, H, implies(l != {TOP}, lvl_same({SS}, {SS0}, l, D)))"),
+    ("C07.flag_levels", f"forall(l, 0, H, implies(l != {TOP}, forall(p, 0, P, {NEs}[l, p] == {NE0}[l, p])))"),
+    ("C07.flags_only_cleared", f"forall(p, 0, P, implies({NEs}[{TOP}, p], {NE0}[{TOP}, p]))"),
+]
+CA_SHRINK = ("C08.shrink", f"implies(result != PROBLEM_INCONSISTENT, forall(d, 0, D, {SS0}[{TOP}, d, MIN] <= {SS}[{TOP}, d, MIN] and {SS}[{TOP}, d, MIN] <= {SS}[{TOP}, d, MAX] and {SS}[{TOP}, d, MAX] <= {SS0}[{TOP}, d, MAX]))")
+CA_STATUS = ("C01.status", "result == PROBLEM_INCONSISTENT or result == PROBLEM_UNBOUND or result == PROBLEM_BOUND")
+CA_BOUND = ("C01.bound", f"implies(result == PROBLEM_BOUND, forall(d, 0, D, {SS}[{TOP}, d, MIN] == {SS}[{TOP}, d, MAX]))")
+CA_UNBOUND = ("C01.unbound", f"implies(result == PROBLEM_UNBOUND, exists(d, 0, D, {SS}[{TOP}, d, MIN] < {SS}[{TOP}, d, MAX]))")
+
+PROP_IFACE_T = {"domains": "i32[n,2]", "parameters": "i32[m]"}
+PROP_IFACE_REQ = [("box_nonempty", "forall(k, 0, n, domains[k, MIN] <= domains[k, MAX])")]
+PROP_IFACE_ENS = [
+    ("status", "result == PROP_INCONSISTENCY or result == PROP_CONSISTENCY or result == PROP_ENTAILMENT"),
+    ("P1", "implies(result != PROP_INCONSISTENCY, forall(k, 0, n, old(domains)[k, MIN] <= domains[k, MIN] and domains[k, MIN] <= domains[k, MAX] and domains[k, MAX] <= old(domains)[k, MAX]))"),
+]
